@@ -107,20 +107,20 @@ theorem step_preserves {n secs s closed cur todo rem} (i : Nat) (h : Inv n secs 
       · intro j hj _
         simp only [List.getElem?_set]
         split
-        · rename_i hij; subst hij; simp [hlt]
+        · rename_i hij; subst hij; simp
         · rename_i hij
           exact h.out j hj (by rw [hs]; intro hc; exact hij (Option.some.inj hc))
       · intro j hj; simp at hj
-      · simp [h.log_eq, hs, flatLog_append, flatLog, secEvents, openLog]
+      · simp [h.log_eq, hs, flatLog, secEvents, openLog]
       · intro j hj
         have := h.acct j hj
         by_cases hji : j = i
         · subst hji
-          simp [hs, ownedBy_append, ownedBy] at this ⊢
+          simp [hs, ownedBy] at this ⊢
           exact this
         · have hne : ¬ (s.sem = some j) := by rw [hs]; intro hc; exact hji (Option.some.inj hc).symm
           have hne' : (i == j) = false := by simp; omega
-          simp [hne, ownedBy_append, ownedBy, hne'] at this ⊢
+          simp [hne, ownedBy, hne'] at this ⊢
           exact this
       · intro p hp
         rcases List.mem_append.mp hp with hp | hp
@@ -162,7 +162,7 @@ theorem step_preserves {n secs s closed cur todo rem} (i : Nat) (h : Inv n secs 
         · intro j hj hne
           simp only [List.getElem?_set]
           split
-          · rename_i hij; subst hij; simp [hlt]
+          · rename_i hij; subst hij; simp
           · rename_i hij
             have : ¬ j = i := fun hc => hij hc.symm
             simpa [this] using h.out j hj hne
